@@ -1,5 +1,6 @@
 import AdfObdd.Drv.Bdd
 import AdfObdd.Drv.Adf
+import AdfObdd.Drv.Cli
 import AdfObdd.Drv.Parser
 import AdfObdd.Drv.Ng
 import AdfObdd.Drv.Iter
@@ -41,6 +42,10 @@ def step (d : DS) (l : String) : List String × DS :=
   | (some out, b) => (out, { d with bdd := b })
   | (none, b0) =>
   let d := { d with bdd := b0 }
+  -- `clirun` with the text of the file: the text-level model of the CLI (Drv/Cli.lean)
+  match cliTextStep d.adf l ws with
+  | some out => (out, d)
+  | none =>
   match adfStep d.adf l ws with
   | some (out, a) => (out, { d with adf := a })
   | none =>
